@@ -278,6 +278,14 @@ fn judge_trunc(
     let ow = w(out, ctl);
     if tw <= max {
         if out != text {
+            if at_start && out == text.trim_start_matches(|c: char| c.width().unwrap_or(0) == 0) {
+                return Err((
+                    "fits-but-leading-zero-width-dropped",
+                    format!(
+                        "text of width {tw} fits into {max} but its leading zero-width/control characters were dropped: output {out:?}"
+                    ),
+                ));
+            }
             return Err((
                 "fits-changed",
                 format!("text of width {tw} fits into {max} but the output is {out:?}"),
@@ -559,7 +567,10 @@ fn eval(case: &Case) -> Result<Flags, (String, String)> {
         Ok(o) => o,
         Err(p) => return Err((format!("C44/{name}/panic"), format!("{} panicked: {p}", describe(case)))),
     };
-    let has_ctl = case.text.chars().chain(case.aux.chars()).any(is_ctl);
+    // wrapping splits at newlines before anything is measured, so a newline is not a
+    // control character whose width matters there
+    let is_wrap = matches!(case.f, F::WrapBytes | F::WriteWrapped);
+    let has_ctl = case.text.chars().chain(case.aux.chars()).any(|c| is_ctl(c) && !(is_wrap && c == '\n'));
     let mut fl = Flags::default();
     match judge(case, &o, 0, &mut fl) {
         Ok(()) => Ok(fl),
@@ -570,6 +581,13 @@ fn eval(case: &Case) -> Result<Flags, (String, String)> {
                     Ok(()) => {
                         fl1.needed_ctl1 = true;
                         Ok(fl1)
+                    }
+                    // the same clause fails under both readings: the control characters are
+                    // not what the failure is about
+                    // (wrapping measures with textwrap's per-char sum, i.e. reading 0,
+                    // throughout: its reading-0 failure is the finding)
+                    Err((clause1, _)) if clause1 == clause || is_wrap => {
+                        Err((format!("C44/{name}/{clause}"), format!("{}: {msg}", describe(case))))
                     }
                     Err((clause1, msg1)) => Err((
                         format!("C44/{name}/{clause}/control-chars"),
@@ -635,6 +653,7 @@ struct Tally {
     ctl_cases: Counter,
     labelled: Counter,
     strwidth_disagree: Counter,
+    by_sig: std::sync::Mutex<std::collections::BTreeMap<String, u64>>,
 }
 
 fn main() {
@@ -674,6 +693,7 @@ fn main() {
         ctl_cases: Counter::new(),
         labelled: Counter::new(),
         strwidth_disagree: Counter::new(),
+        by_sig: Default::default(),
     };
     let samples = Samples::new(8);
     let disagree_sample = Samples::new(2);
@@ -705,7 +725,10 @@ fn main() {
                     }
                 }
             }
-            Err((sig, msg)) => ctx.violation(&sig, msg, case.to_json()),
+            Err((sig, msg)) => {
+                *local.by_sig.entry(sig.clone()).or_insert(0) += 1;
+                ctx.violation(&sig, msg, case.to_json())
+            }
         }
     };
 
@@ -836,6 +859,7 @@ fn main() {
                 "control_free_strings_where_str_width_differs_from_char_sum".to_string(),
                 json!({"count": tally.strwidth_disagree.get(), "samples": disagree_sample.take()}),
             ),
+            ("violation_occurrences_by_signature".to_string(), json!(*tally.by_sig.lock().unwrap())),
             ("max_len".to_string(), json!(max_len_nolabel)),
             ("max_len_with_labels".to_string(), json!(max_len)),
             ("max_width".to_string(), json!(max_width)),
@@ -862,6 +886,7 @@ struct LocalTally {
     flags: [u64; NFLAGS],
     ctl_cases: u64,
     labelled: u64,
+    by_sig: std::collections::BTreeMap<String, u64>,
 }
 
 impl LocalTally {
@@ -875,5 +900,11 @@ impl LocalTally {
         }
         t.ctl_cases.add(self.ctl_cases);
         t.labelled.add(self.labelled);
+        if !self.by_sig.is_empty() {
+            let mut m = t.by_sig.lock().unwrap();
+            for (k, v) in &self.by_sig {
+                *m.entry(k.clone()).or_insert(0) += v;
+            }
+        }
     }
 }
